@@ -19,7 +19,7 @@ CHECKS = {
    ref='DESIGN §3 C07'),
  'C05': dict(cat=TV, tech='real solver entry points run on an enumerated family of small LP/MILP models; z3 (exact rational LRA/LIA) decides optimality for all points, infeasibility, and existence of an improving recession direction',
    text='For every L(n,m) model and every built-in entry point that accepts it, z3 is the exact oracle: a returned optimum is optimal over ALL feasible points (unsat query), an infeasible verdict means the model is unsatisfiable, an unbounded verdict needs a feasible point and an improving ray; simplex-based solvers must answer with Ok/Infeasible/Unbounded only (a solver that does not return within 5 s is reported as a hang).',
-   note='The solver run itself is concrete (third-party numerical code cannot be executed symbolically); the quantified part is the oracle query. Tolerance 1e-6 relative (1e-4 for Clarabel). Known findings about microlp 0.5 / Clarabel status mapping are listed in known_findings.txt.',
+   note='The solver run itself is concrete (third-party numerical code cannot be executed symbolically); the quantified part is the oracle query. Tolerance 1e-6 relative (1e-4 for Clarabel). Families: L(n,m), degenerate and classical cycling LPs, knapsack and large-objective MILPs, sub-tolerance coefficients next to large values, empty declared ranges, models compiled by the real linearizer. The microlp / Clarabel findings of earlier rounds were repaired in /repo; open: the tableau simplex compares ratios with an absolute 1e-5 tolerance (known_findings.txt, keyed on the obligation and on a sub-tolerance row coefficient).',
    ref='DESIGN §3 C05'),
  'C13': dict(cat=TV, tech='SMT translation validation (z3, exists/forall LRA) of the real standard-form conversion + Kani proofs of the row-normalisation kernels',
    text='For every continuous L(n,m) model the real into_standard_form output is read through the verif-hooks accessor; z3 decides that every original feasible point has a standard-form preimage with the related objective value and that every standard-form point (y>=0, Ay=b) maps back to an original feasible point, for ALL points; rhs>=0 and equality shape are checked exactly.',
@@ -30,7 +30,7 @@ CHECKS = {
    note='Tolerance-aware (1e-6 relative inside |y|<=10) because traces contain rounded floats. The symbolic-tableau inductive step (Kani) is in the thorough tier only (about 13 min / 10 GB).',
    ref='DESIGN §3 C14'),
  'C15': dict(cat=TV, tech='real MILP entry points run under every (time limit, gap) setting; z3 (exact LIA/LRA) decides the implications a correct outcome must satisfy for all points',
-   text='For every MILP family member x time limit {0,1ns,1us,1ms,none} x gap {none,0,1e-6,0.5,10,-1,NaN,inf} the real solve_milp_lp_problem_with and the builder Microlp wrapper are run; z3 decides that a solution labelled Optimal has no feasible point better by more than the gap, that Infeasible/Unbounded verdicts are true, and exact evaluation shows every returned point feasible; invalid gaps must be rejected. Because the obligations are implications over outcomes, the instant the limit fires cannot cause a false alarm.',
+   text='For every MILP family member x time limit {0,1ns,1us,1ms,none} x gap {none,0,1e-6,0.5,1,10,-0.0; invalid: -1,NaN,inf,-inf,-1e-9} the real solve_milp_lp_problem_with and the builder Microlp wrapper are run; z3 decides that a solution labelled Optimal has no feasible point better by more than the gap, that Infeasible/Unbounded verdicts are true, and exact evaluation shows every returned point feasible; invalid gaps must be rejected. Because the obligations are implications over outcomes, the instant the limit fires cannot cause a false alarm.',
    note='The run is concrete (wall-clock limits, third-party search); limits of 0 ns make the interrupted branch deterministic. Timing-dependent counterexamples that do not reproduce in 3 replays are counted, not reported.',
    ref='DESIGN §3 C15'),
  'C17': dict(cat=TV, tech='SMT denotation equality (z3) between the real LinearModel and its CPLEX-LP export read back by an independent reader',
@@ -47,7 +47,7 @@ CHECKS = {
    ref='DESIGN §3 C09'),
  'C10': dict(cat=TV, tech='real Exp::simplify / Exp::flatten run on an exhaustive family of small trees, value and definedness preservation decided by z3 (NRA) for all assignments; constant re-spellings compared through the real compiler with exists/forall projection equivalence',
    text='(a) 70k trees (every tree of depth <=1 over {x,y,0,1,2,-0.0,0.5}, every operator above a depth-1 tree): z3 decides that wherever the original is defined each rewrite (simplify, flatten, flatten.simplify and their second applications) is defined with the same value, and that an undefined point stays undefined. (b) 8 spellings of a coefficient in models where bound inference matters: all accepted or all rejected, and pairwise projection equivalence of the compiled linear models including best objective over auxiliary extensions.',
-   note='Typing precondition (stated in smt/c10.py): a non-constant operand of a logic operator is Boolean-valued, as the type checker and linearizer enforce; numeric constants in logic positions are unrestricted. Constant folding is compared with a 1e-9 relative margin (f64). Idempotence as a structural identity is not claimed.',
+   note='Typing precondition (stated in smt/c10.py): a non-constant operand of a logic operator is Boolean-valued, as the type checker and linearizer enforce; numeric constants in logic positions are unrestricted. Constant folding is compared with a 1e-9 relative margin (f64). simplify(simplify(e)) == simplify(e) is additionally compared structurally (an evaluation, reported as such).',
    ref='DESIGN §3 C10'),
  'C03': dict(cat=TV, tech='real end-to-end run (parse, type-check, transform, linearize, default solver) on texts printed from generator trees; z3 decides on the generator tree that no satisfying assignment is better / that none exists',
    text='For every text of family P over bounded domains the real RoocSolver::try_new(text).solve_using(auto_solver) is run; judged on the generator\'s own tree by z3: a returned point satisfies the source and no satisfying assignment has a better objective (unsat query over all assignments); an infeasible verdict means Src is unsatisfiable; a compile error, unbounded verdict, panic or hang on a bounded model is a violation.',
@@ -55,11 +55,11 @@ CHECKS = {
    ref='DESIGN §3 C03'),
  'C11': dict(cat=TV, tech='real formatter + parser run on an enumerated family of texts; z3 decides for all assignments that the model re-parsed from the formatted text means the same as the original, and exists/forall projection equivalence of the two compiled linear models',
    text='For every text (all (parent, child, side) operator triples printed with minimal parentheses, unary over negative constants, implicit products, P texts in 3 spellings, hand-written surface variety) the real format() output must be accepted and z3 decides objective-value equality and per-constraint truth-value equality for all assignments plus equivalence of the compiled linear models; format(format(t)) == format(t) is evaluated.',
-   note='Meaning part only is solver-decided; idempotence is a string comparison. Outside: iteration blocks and declaration forms beyond those the family contains.',
+   note='Meaning part only is solver-decided; idempotence is a string comparison. The hand-written part of the family covers every binder shape of iteration scopes, every declaration form, where-block values of every literal kind, weighted graph literals, strict comparisons; 140 programs of the repository's own tests / docs are included. Outside: other data-driven shapes.',
    ref='DESIGN §3 C11'),
  'C12': dict(cat=TV, tech='real Model / LinearModel renderings re-compiled by the real parser, type checker and linearizer; z3 decides (exists/forall LRA+LIA) projection equivalence of original and re-compiled linear model for all assignments',
    text='For every compiled Model and LinearModel of the family (M1, seeded M(3) with names, seeded L(3,3) with coefficients 1e-9..1e9, offsets, satisfy) the real to_string() text must parse, type-check and compile, and the re-compiled linear model must have the same projection on the original variables and the same best objective, decided by z3 for all assignments.',
-   note='Meaning part only; row-for-row identity and the render-compile-render fixpoint are not claimed (no value quantifier). Family restricted to well-typed models (no numeric literal in a logic position). Known finding F-bounds-float-cancellation on ill-conditioned rows.',
+   note='Meaning part only; row-for-row identity and the render-compile-render fixpoint are not claimed (no value quantifier). Family restricted to well-typed models (no numeric literal in a logic position). Families also contain compiled index names (x_-1, z_-1_-1), strict rows, single-operand blocks, diverging and ill-conditioned rows (the former finding on float cancellation in bound propagation was repaired in /repo).',
    ref='DESIGN §3 C12'),
  'C16': dict(cat=TV, tech='the same generator tree pushed through every real front door; pairwise projection equivalence of the compiled linear models decided by z3 (exists/forall), shared verdict/optimum judged against the source by z3 oracle queries',
    text='For every family member the model is built through the fluent builder (operator overloads, helper functions, three call orders), as source text through RoocParser+Linearizer, through PipeRunner and through RoocSolver; z3 decides for all assignments that all compiled linear models have the same projection on the declared variables and best objective; all doors must accept or all reject, and agree on verdict and optimum, which is additionally judged against the source semantics (no better assignment / no satisfying assignment).',
